@@ -156,6 +156,11 @@ def rule_asraw_siblings(fx, col):
         if st.startswith('*'):
             ok = not calls
             why = 'raw pointer: identity (no call)'
+        elif 'ptr::NonNull<' in st or 'ptr::non_null::NonNull<' in st:
+            # the pointer itself, like *mut T: the only call is NonNull::as_ptr on self
+            ok = len(calls) == 1 and U.callee_name(calls[0][1]) == 'as_ptr' and 'NonNull' in calls[0][1]['callee'].get('path', '') and \
+                b.origins(calls[0][1]['args'][0], through_calls=_deref_through) == {('arg', 1)}
+            why = 'non-null raw pointer: identity (NonNull::as_ptr(self))'
         else:
             ok = len(lib_or_user) == 1 and U.callee_name(lib_or_user[0]) == 'as_ptr' and (lib_or_user[0]['callee'].get('trait') or '').endswith('ref_cnt::RefCnt')
             if ok:
@@ -287,9 +292,12 @@ def rule_api_agnostic(fx, col):
             t = b.term(bb)
             if t['k'] == 'switch' and t['discr']['k'] == 'const' and 'USE_FAST' in (t['discr']['c'].get('text') or ''):
                 users.append(b)
+    # a body that merely returns the constant (a `const fn uses_fast_slots()` getter: no call, no atomic) decides nothing
+    getters = [u for u in users if not list(u.calls(include_cleanup=False))]
+    users = [u for u in users if u not in getters]
     names = sorted({u.fname for u in users})
     col.add('API-AGNOSTIC', 'Config::USE_FAST|single reader', len(names) == 1 and names[0].startswith('<strategy::hybrid::HybridStrategy as strategy::sealed::InnerStrategy>::load'),
-            'USE_FAST is consulted in %s' % names)
+            'USE_FAST is consulted in %s (pure getters: %s)' % (names, sorted({g.fname for g in getters})))
     for u in users[:1]:
         calls = [U.callee_name(t) for _, t in _lib_calls(fx, u)]
         kids = [cb for _, _, cb in U.closures_built(lib, u)]
@@ -314,11 +322,12 @@ def rule_lock_span(fx, col):
         rd = [bb for bb, t in b.calls(include_cleanup=False) if U.callee_name(t) == 'read']
         cell = [s for s in cx.summ.sites_by_body.get(b.key, ()) if s.cls == 'cell']
         inc = [bb for bb, t in b.calls(include_cleanup=False) if U.callee_name(t) == 'inc']
-        gl = None
-        for bb, t in b.calls(include_cleanup=False):
-            if U.callee_name(t) in ('expect', 'unwrap') and rd and ('call', rd[0]) in b.origins(t['args'][0]):
-                gl = t['dest']['local']
-        drops = b.releases(gl) if gl is not None else []
+        # the guard: whatever the lock result is unwrapped into (expect / unwrap / unwrap_or_else(PoisonError::into_inner) /
+        # a match): every local of guard type whose value derives from the read() call
+        gls = [l for l in range(len(b.j['locals'])) if 'RwLockReadGuard<' in b.local_ty(l) and 'Result<' not in b.local_ty(l) and 'PoisonError<' not in b.local_ty(l)
+               and rd and ('call', rd[0]) in b.origins(l, through_calls=lambda t: [0] if U.callee_name(t) in ('expect', 'unwrap', 'unwrap_or_else', 'into_inner') else None)]
+        gl = gls[0] if gls else None
+        drops = sorted({x for l in gls for x in b.releases(l)})
         ok = bool(rd) and bool(cell) and bool(inc) and gl is not None and all(b.dominates(rd[0], s.bb) for s in cell) and \
             bool(drops) and all(b.dominates(i, d) for i in inc for d in drops)
         col.add('LOCK-SPAN', 'RwLock load|read lock spans read and inc', ok, 'read() at %s precedes the cell read; the guard is dropped at %s after the inc' % ([b.loc(x) for x in rd], [b.loc(x) for x in drops]))
@@ -351,6 +360,43 @@ def rule_lock_span(fx, col):
                 'the exchange is on every path to return: %s; the value returned derives from its result only: %s (sources %s)' % (on_all, from_x, sorted(src, key=str)))
 
 
+def rule_lock_poison(fx, col):
+    """C18 / C13 on the lock based reference strategy: user code (a pointee destructor, the drop of `current`) runs while
+    compare_and_swap holds the write lock, so a panic there poisons the lock. The lock guards no data (`RwLock<()>`); an
+    acquisition that *panics* on a poisoned lock (`.expect(..)` / `.unwrap()`) turns one caught panic into a panic of every
+    later load / store / drop of that container."""
+    if not fx.has_feature('internal-test-strategies'):
+        return
+    from . import ledger as L
+    lib = fx.lib
+    bodies = [b for b in lib.bodies if (b.j.get('impl_self_ty') or '').startswith('std::sync::RwLock<')]
+    if not col.anchor('LOCK-POISON', 'impls for RwLock<()>', len(bodies) >= 3):
+        return
+    under_lock = []
+    for b in bodies:
+        acq = [bb for bb, t in b.calls(include_cleanup=False) if U.callee_name(t) in ('read', 'write') and 'sync::' in t['callee'].get('path', '')]
+        if not acq:
+            continue
+        after = set()
+        for a in acq:
+            after |= b.reach_from(a, unwind=False)
+        for bb in sorted(after):
+            t = b.term(bb)
+            if t['k'] == 'call' and L.user_call_kind(t):
+                under_lock.append('%s: %s at %s' % (b.fname.split('::')[-1], L.user_call_kind(t), b.loc(bb)))
+            if t['k'] == 'drop' and t.get('has_param') and not b.is_cleanup(bb):
+                under_lock.append('%s: drop of %s at %s' % (b.fname.split('::')[-1], t['ty'], b.loc(bb)))
+    n = 0
+    for b in bodies:
+        for bb, t in b.calls(include_cleanup=False):
+            if U.callee_name(t) in ('read', 'write') and 'sync::' in t['callee'].get('path', ''):
+                n += 1
+                panicking = [x for x, tt in b.calls(include_cleanup=False) if U.callee_name(tt) in ('expect', 'unwrap') and ('call', bb) in b.origins(tt['args'][0])]
+                col.add('LOCK-POISON', '%s|%s() tolerates a poisoned lock' % (b.fname, U.callee_name(t)), not (panicking and under_lock),
+                        'the result of %s() is %s; user code that can panic under the lock: %s' % (U.callee_name(t), 'unwrapped with a panicking method at %s' % [b.loc(x) for x in panicking] if panicking else 'not unwrapped with a panicking method', under_lock[:3]), b.loc(bb))
+    col.floor('LOCK-POISON', 'lock acquisitions', n, 3)
+
+
 # --------------------------------------------------------------------------------------------
 # CACHE-SHAPE
 
@@ -380,6 +426,8 @@ def rule_cache_shape(fx, col):
     lf = [(bb, t) for bb, t in rv.calls(include_cleanup=False) if U.callee_name(t) in ('load_full', 'load') and t['callee'].get('krate') == 'arc_swap']
     if not col.anchor('CACHE-SHAPE', 'revalidate|anchors', len(cell) == 1 and len(asp) == 1 and len(lf) == 1, 'cell loads %d, as_ptr %d, reloads %d' % (len(cell), len(asp), len(lf))):
         return
+    col.add('CACHE-SHAPE', 'revalidate|looks at the container on every path', rv.postdominates(cell[0].bb, 0),
+            'no early return before the peek at the shared pointer (e.g. "a zero-sized pointee has only one value": the identity of the Arc still changes)', cell[0].loc)
     r, f = rv.ref_path(asp[0][1]['args'][0])
     col.add('CACHE-SHAPE', 'revalidate|compares the cached value', [x['name'] for x in f if x['k'] == 'field'][-1:] == ['cached'], 'as_ptr(&self.cached)')
     guard = None
@@ -535,6 +583,16 @@ def rule_access_shape(fx, col):
             continue
         ok = len(loads) == 1 and b.postdominates(loads[0][0], 0)
         col.add('MUST-LOAD', '%s|one fresh load' % b.fname, ok, '%d inner load(s), executed on every path' % len(loads))
+        # forwarding descends: the inner load is not this very impl again (directly, or through the blanket impl for
+        # pointers applied to `&Self`, which derefs straight back here: unbounded recursion for that instantiation)
+        for lbb, lt in loads:
+            c = lt['callee']
+            norm = lambda x: re.sub(r"\s+", ' ', (x or '').replace("'_ ", '').replace(" + '_", '')).strip()
+            mine, theirs = norm(st), norm(c.get('self_ty'))
+            same_trait = (c.get('trait') or '') == tr
+            back = same_trait and theirs.lstrip('&').strip() == mine
+            col.add('MUST-LOAD', '%s|forwarding descends' % b.fname, not back,
+                    'the inner load dispatches on `%s` through %s (this impl: `%s` for %s)' % (c.get('self_ty'), (c.get('trait') or '').split('::')[-1], st, tr.split('::')[-1]), b.loc(lbb))
         if tr.endswith('access::DynAccess'):
             bx = [(bb, t) for bb, t in b.calls(include_cleanup=False) if U.callee_name(t) == 'new' and 'boxed::Box' in t['callee'].get('path', '')]
             okb = len(bx) == 1 and loads and b.origins(bx[0][1]['args'][0]) == {('call', loads[0][0])}
@@ -582,10 +640,20 @@ def rule_serde_shape(fx, col):
         for cbb, ci, cb in U.closures_built(fx.lib, d):
             cfr = [(bb, t) for bb, t in cb.calls(include_cleanup=False) if is_ctor(t)]
             mp = [(bb, t) for bb, t in calls if U.callee_name(t) == 'map' and 'result::Result' in t['callee'].get('path', '') and
-                  d.origins(t['args'][0]) == {('call', de[0][0])} and t['dest']['local'] == 0]
+                  d.origins(t['args'][0]) == {('call', de[0][0])} and ('call', bb) in d.origins(0)]
             if len(cfr) == 1 and len(mp) == 1 and cb.origins(cfr[0][1]['args'][0]) == {('arg', 2)}:
                 extra = [U.callee_name(t) for bb, t in cb.calls(include_cleanup=False) if U.callee_name(t) in ('clone', 'load', 'load_full', 'inc', 'store', 'swap')]
                 via_map = (cfr[0], extra)
+    if len(de) == 1 and not fr and via_map is None:
+        # `T::deserialize(d).map(Self::from)`: the constructor is handed to Result::map as a function item
+        for bb, t in calls:
+            if U.callee_name(t) == 'map' and 'result::Result' in t['callee'].get('path', '') and d.origins(t['args'][0]) == {('call', de[0][0])} \
+                    and ('call', bb) in d.origins(0) and len(t['args']) == 2 and t['args'][1]['k'] == 'const':
+                fb = fx.lib.by_key.get(t['args'][1]['c'].get('fn'))
+                fp = t['args'][1]['c'].get('fn_pretty') or ''
+                if (fb is not None and fb.name in ('from', 'new') and fb.j.get('impl_self_adt') == 'arc_swap::ArcSwapAny') or \
+                        re.match(r'^(<ArcSwapAny<T, S> as std::convert::From<T>>::from|ArcSwapAny::<T, S>::new)$', fp):
+                    via_map = ((bb, t), [])
     ok = len(de) == 1 and (len(fr) == 1 or via_map is not None)
     col.add('SERDE-SHAPE', 'deserialize|T::deserialize then From', ok, '%d T::deserialize call(s), %d container constructor call(s)%s' % (len(de), len(fr), ' (constructor inside Result::map)' if via_map else ''))
     if ok and via_map is not None:
